@@ -263,8 +263,9 @@ def export(work, tag, **consts):
 def run(tier, seed):
     t = Timer()
     ev = Evidence(PID, tier, seed, "model_checking")
-    ev.assumptions = ["datasets written without a row index (a written non-range index is C01's concern: it is broken under "
-                      "pandas 3 in this environment)", "range-index labels are not compared",
+    ev.assumptions = ["datasets: this library's single file and hive directory written without a row index, one single file "
+                      "written WITH a named row index, and a foreign file; the index= argument (recorded / suppressed / a named "
+                      "column) is explored on a reduced argument grid", "range-index labels are not compared",
                       "Python slice semantics transcribed from CPython's PySlice_AdjustIndices"]
     thorough = tier == "thorough"
     with scratch() as work:
